@@ -608,6 +608,12 @@ class GenericInterp(Interp):
                 if isinstance(vals[0], str) and isinstance(vals[1], str):
                     a, b = vals
                     return {'<': a < b, '>': a > b, '<=': a <= b, '>=': a >= b, '==': a == b, '!=': a != b}[op]
+                if 'NDSizeBase' in ((n.callee or {}).get('sig') or '') and op in ('<', '>', '<=', '>='):
+                    # NDSize comparisons are component-wise: a < b / a <= b hold when ALL components do; a > b is !(a <= b), a >= b is !(a < b)
+                    # (so a > b is not b < a): keep the operand order and use separate keys
+                    key, neg = {'<': (('nd<', vals[0], vals[1]), False), '<=': (('nd<=', vals[0], vals[1]), False),
+                                '>': (('nd<=', vals[0], vals[1]), True), '>=': (('nd<', vals[0], vals[1]), True)}[op]
+                    return self.decide_neg(('cmp',) + key, neg)
                 key, neg = _canon_cmp(op, vals[0], vals[1])
                 return self.decide_neg(('cmp',) + key, neg)
             if op == '!' and len(vals) == 1:
